@@ -715,6 +715,33 @@ theorem closest_guard_iff (l : List Rat) : closestGuard l = stop ↔ ¬ closestM
   rw [← isSorted_iff]
   split <;> simp_all [stop, pass]
 
+theorem closest_ok_in_bounds (l : List Rat) (idx : Nat) (h : idx ≤ l.length) : NoOOB (closestReads l idx) := by
+  intro o ho
+  unfold closestReads at ho
+  split at ho
+  · simp at ho
+  · rename_i hne
+    simp only [List.mem_cons, List.not_mem_nil, or_false] at ho
+    have h1 : idx - 1 < l.length := by omega
+    have h2 : idx < l.length := by omega
+    rcases ho with rfl | rfl
+    · simp [h1]
+    · simp [h2]
+
+theorem inUnits_ok_in_bounds (q : List (List Rat)) (dims : List Rat)
+    (h : inUnitsMeaningful (q.map List.length) dims.length) : NoOOB (inUnitsReads q dims) := by
+  intro o ho
+  simp only [inUnitsReads, List.mem_flatMap, List.mem_range] at ho
+  obtain ⟨i, hi, j, hj, ho⟩ := ho
+  have hq : q.getD i [] = q[i] := by simp [List.getD, List.getElem?_eq_getElem hi]
+  rw [hq] at hj
+  have hlen : (q[i]).length = dims.length := h _ (List.mem_map.mpr ⟨_, List.getElem_mem hi, rfl⟩)
+  simp only [List.mem_cons, List.not_mem_nil, or_false] at ho
+  rcases ho with rfl | rfl
+  · rw [List.getElem?_eq_getElem hi]; simp [hj]
+  · have : j < dims.length := by omega
+    simp [this]
+
 /-- `Sub_List` never stops and never reads outside the source list, for EVERY index pair (fix 7658ded) -/
 theorem subList_guard_never_stops (n : Nat) (i1 : Int) (i2 : Nat) : subListGuard n i1 i2 = pass := rfl
 
